@@ -33,6 +33,10 @@ ENG_A = "simio"
 ENG_B = "simnet"
 
 CHECKS = {
+ "C28": dict(level="exploration", engine=ENG_B, design="DESIGN.md §4 C28",
+   technique="deterministic multi-node simulation at the libc socket seam: the real establish()/establish_async() run as a node on a simulated connection against a scripted requestor node; a seeded scheduler decides node interleaving, send sizes, delivery segmentation and receive sizes; the wire bytes and the returned association are compared with an executable negotiation model",
+   text="Seeded search over acceptor configurations x association requests (independent PS3.8 encoder, padded UIDs, many contexts, every user-information item) x network schedules. The unmodified ServerAssociationOptions::establish and establish_async bodies run on real std/tokio TcpStream values whose descriptors are simulated; what the acceptor puts on the wire (one result per proposed context with the same id, acceptance exactly per the abstract/transfer syntax rules with the first acceptable proposed transfer syntax, the rejection reasons, the advertised maximum length) and what the returned association reports (contexts, requestor/acceptor maximum PDU length with 0 -> largest, absent -> default) must equal the model.",
+   note="Trusted: the negotiation model (written from the property text and PS3.8), the independent PS3.8 codec, the simulated TCP model (reliable ordered byte stream with arbitrary segmentation). Registry support is that of the harness build (deflate on: no registered-but-unsupported syntax exists; the unknown-UID case covers 'unsupported'). TLS paths are not simulated. A request longer than the maximum in strict mode is rejected before negotiation (checked: establish fails)."),
  "C05": dict(level="exploration", engine=ENG_A, design="DESIGN.md §4 C05",
    technique="deterministic simulation with fault injection: valid encodings damaged by seeded storage/transport faults (torn, flipped, zeroed, duplicated, transposed, spliced blocks; layout-aware length/VR/tag damage; nesting bombs) served through a short-reading source with a read-call budget into every reader entry point; panics caught in-process, aborts attributed by the supervisor (process isolation), hangs by budget + watchdog",
    text="Seeded search over (valid input, fault sequence, read segmentation, reader options). Every public reading entry point (files with/without preamble, meta group, eager/lazy/collector data-set readers in every transfer syntax incl. deflated and flexible VR, DICOM JSON, PDUs, pixel decoding with native/RLE/JPEG decoders, dump, textual tag/selector/date parsers on harvested strings) must return Ok or Err: no panic (class = innermost dicom-rs source location), no abort (each case runs in a worker process; a death is attributed to its run and described by a dry re-execution), no hang (read-call budget 256+8*len, plus a wall-clock watchdog confirmed by a solitary re-run). Four known findings (unbounded recursion per nested sequence level -> stack overflow) are listed in known_findings.jsonl.",
